@@ -36,6 +36,8 @@ fn main() {
     let (archname, path, tracepath) = (args[1].as_str(), args[2].as_str(), args[3].as_str());
     let mut trace = std::io::BufWriter::new(std::fs::File::create(tracepath).unwrap());
     let mut rep = Report::new();
+    // "amd64win": the same walker under Os::Windows (the frame-pointer technique scans upwards in 16-byte steps)
+    let (archname, os) = if archname == "amd64win" { ("amd64", Os::Windows) } else { (archname, Os::Linux) };
     let spec = arch_spec(archname);
     let mut n = 0u64;
     for_each_case(path, "CASE", |c| {
@@ -48,7 +50,7 @@ fn main() {
         let mut symbols = HashMap::new();
         symbols.insert("m1".to_string(), amd64_symbols(c["rule"].as_str().unwrap()));
         let built = !c["expect"].as_array().unwrap().is_empty();
-        let inp = WalkInput { arch: spec.arch, os: Os::Linux, regs, valid: Some(valid), stack_base: 0x10000, stack_bytes: words_to_bytes(&words, spec.word),
+        let inp = WalkInput { arch: spec.arch, os, regs, valid: Some(valid), stack_base: 0x10000, stack_bytes: words_to_bytes(&words, spec.word),
                               modules: vec![("m1".into(), 0x400000, 0x1000), ("m2".into(), 0x500000, 0x1000)], symbols, track: spec.track.clone(), frame_cap: words.len() * spec.word + 3 };
         let obs = guarded(|| run_walk(&inp));
         rep.evaluations += 1;
